@@ -101,6 +101,7 @@ func SendMissingStz(lastSent int, s Sender, uaq *stanza.UnAckQueue) error {
 			eltStz := elt.(*stanza.UnAckedStz)
 			err := s.SendRaw(eltStz.Stz)
 			if err != nil {
+				uaq.RWMutex.Unlock()
 				return err
 			}
 
